@@ -958,6 +958,8 @@ func runDB(cfg *config) {
 			id++
 			runFailures(cfg, id, r.Fork())
 		}
+		id++
+		runCacheFull(cfg, id, r.Fork())
 	case "c03":
 		n := 6 * cfg.scale
 		for i := 0; i < n; i++ {
@@ -1198,6 +1200,62 @@ func runFailures(cfg *config, id int, r *hx.Rng) {
 	}
 	if d.rs != nil {
 		d.dump()
+	}
+	cfg.st.Seen(fmt.Sprint(id), true)
+}
+
+// runCacheFull (C14): a statement that dirties more pages than the page cache holds is refused
+// half-way ("cache is full"); a refused statement must have changed nothing.  The cache is made small
+// through the open hook; the model has no capacity, so the statement and the look at the table
+// afterwards are judge-only (the case ends there).
+func runCacheFull(cfg *config, id int, r *hx.Rng) {
+	cfg.tr.Case(id)
+	d := &rdb{cfg: cfg, name: fmt.Sprintf("cf%d", id)}
+	defer d.close()
+	d.createdb()
+	t := &gtable{name: "t1", cols: []gcol{{"c0", "int"}, {"c1", "varchar"}}}
+	d.stmt(createText(t))
+	for k := 0; k < 12; k++ {
+		var rows [][]interface{}
+		for i := 0; i < 10; i++ {
+			rows = append(rows, []interface{}{int64(10*k + i), strings.Repeat("w", 100)})
+		}
+		d.stmt(insertText(t, rows, false))
+	}
+	d.flush()
+	d.selectEvery()
+	d.cap = 6
+	d.reopen()
+	for _, q := range []string{"DELETE FROM t1", "UPDATE t1 SET c1 = 'x'"} {
+		d.cfg.tr.Op("capstmt %s", hxs(q))
+		res := ""
+		wdog.Run(func() {
+			if pm := hx.Catch(func() { res = d.execStmt(q) }); pm != "" {
+				res = "panic"
+			}
+		})
+		d.cfg.tr.Tilde(res)
+		cfg.st.Inc("cache-full-statements." + strings.Fields(res + " -")[0])
+		if res == "ok" {
+			continue // the statement fitted after all: nothing to judge, and the model did not run it
+		}
+		// the cache is full of the statement's dirty pages; the next timer tick flushes them
+		hx.Catch(func() { d.rs.VerifFlush() })
+		d.cfg.tr.Op("capselect %s", hxs("t1"))
+		if rows, _, err := d.rs.Fetch("t1"); err != nil {
+			d.cfg.tr.Tilde("err " + dbErrKind(err))
+		} else {
+			var rs []string
+			for _, rw := range rows {
+				vs := make([]string, len(rw.Vals))
+				for i, v := range rw.Vals {
+					vs[i] = valStr(v)
+				}
+				rs = append(rs, fmt.Sprintf("%d: %s", rw.RowID, strings.Join(vs, " ")))
+			}
+			d.cfg.tr.Tilde(strings.TrimSpace("rows " + strings.Join(rs, " | ")))
+		}
+		break
 	}
 	cfg.st.Seen(fmt.Sprint(id), true)
 }
